@@ -280,6 +280,52 @@ def gen_thread_reload_history(rng, i: int) -> dict:
     return plan
 
 
+def gen_two_sids_history(rng, i: int) -> dict:
+    """Two principals' records at the same key position are opened at the same time on one shared cache that starts empty (async
+    tasks of one loop, or caller threads): each (root key, SD) has its own chain.  Afterwards, DC unreachable, earlier positions
+    of BOTH security descriptors must derive from what the overlapping calls left in the cache."""
+    from checks import threadpure
+
+    hash_name = offline.HASHES[i % 4]
+    l1p, l2p = rng.choice(((31, 31), (7, 31), (7, 12), (rng.randrange(1, 32), rng.randrange(32))))
+    now = gkdi.interval_start_filetime(L0, 31, 31) + 9
+    fl = ("async", "thread")[i % 2]
+    plan = {"seed": rng.getrandbits(31), "clock_ft": now, "root_keys": [[78, hash_name, rng.choice(offline.SECRETS)]], "caller_sids": [SID, offline.SID_B],
+            "ctx": {"kind": "stub", "legs": 2, "sig": 16}, "dc": {"omit_l2_at_31": rng.random() < 0.5}, "ops": [], "kind": "two-sids", "seedpos": [l1p, l2p],
+            "latency_us": [1, rng.choice((50, 5000, 200000))]}
+    if fl == "thread":
+        plan["threads"] = {"mode": "marks", "q": rng.choice((0.3, 0.6, 0.9)), "p": rng.choice((0.0, 0.02))} if i % 4 == 1 else threadpure.policy_for(i // 2)
+    ops = plan["ops"]
+    sids = [SID, offline.SID_B] + ([SID] if rng.random() < 0.3 else [])
+    for sid in sids:
+        ops.append({"op": "unprotect", "fl": fl, "group": 1, "net": "online", "blob": {"rk": 0, "sid": sid, "pos": [L0, l1p, l2p], "mode": "nonce", "data": 5}})
+    for _ in range(rng.randint(2, 4)):
+        p = (rng.randrange(0, l1p + 1), rng.choice((0, 31, rng.randrange(32))))
+        if p > (l1p, l2p):
+            p = (l1p, min(p[1], l2p))
+        ops.append({"op": "unprotect", "fl": rng.choice(("sync", "async")), "net": "offline",
+                    "blob": {"rk": 0, "sid": rng.choice((SID, offline.SID_B)), "pos": [L0, p[0], p[1]], "mode": rng.choice(("nonce", "pub")), "data": 9}})
+    return plan
+
+
+def run_two_sids(plan) -> dict:
+    tr = P.execute_plan(plan)
+    probes = {"two_sids_at_once": 1, "thread_overlap": tr.world.stats.get("toverlap", 0)}
+    viol = None
+    for ot in tr.ops:
+        pos = tuple(ot.blob_spec["pos"][1:])
+        if ot.outcome.kind != "ok" or ot.outcome.value != ot.plaintext:
+            et, frame = drive.exc_sig(ot.outcome)
+            first = ot.op.get("group") == 1
+            viol = common.violation("C02", "derivation", "two-sids-" + ot.op["fl"], et if ot.outcome.kind != "ok" else "wrong-plaintext", frame, "at-once" if first else "afterwards",
+                                    f"{'one of the overlapping online calls' if first else 'a later offline call'} for {ot.blob_spec['sid'][-8:]} at {pos} (the cache was filled by "
+                                    f"overlapping calls for two security descriptors at {tuple(plan['seedpos'])}) gave {ot.outcome.brief()} {ot.outcome.exc!r}")
+            break
+    return {"viol": viol, "digest": tr.world.digest(), "key": common.key_hash(plan), "sched_key": common.key_hash(tr.schedule) if tr.schedule else None,
+            "fired": {"partition_or_offline": sum(1 for o in plan["ops"] if o.get("net") == "offline"), "thread_preemptions": tr.world.stats.get("tswitch", 0)},
+            "probes": probes, "vtime_ns": tr.world.stats.get("vtime_ns", 0)}
+
+
 def run_clock(plan) -> dict:
     tr = P.execute_plan(plan)
     probes: t.Dict[str, int] = {"clock_histories": 1}
@@ -382,6 +428,7 @@ class C02(common.Check):
             "1/8 sample for the other hashes; quick: 48 (L1',L2') per hash biased to branch corners; (b) API histories [online unprotect at p' / "
             "load_key -> DC unreachable -> unprotect blobs at p, with a cache-served protect and / or a later load_key of the root key in between]; "
             "(b') cache-served protects (root key loaded, or seed from the DC) under a wall clock that moves with every reading while an L0/L1/L2 boundary passes: the reference must open the blob at the position it is labelled with; "
+            "(b'') records of two security descriptors at one key position opened at the same time (async tasks / caller threads) on one empty shared cache, then earlier positions of both with the DC unreachable; "
             "(c) Byzantine DC answering with an envelope for an earlier position; (d) 2..4 caller threads of one process deriving keys at "
             "the same time on separate caches (deterministic thread scheduler): every key must equal the one derived alone. "
             "Each (seed position, requested position, shape, hash) pair counts as one evaluation. Non-trivial = pair with p != p' or a "
@@ -391,7 +438,7 @@ class C02(common.Check):
                   "transport": "simulated; 'DC unreachable' = partition"}
     assumptions = ["the lattice sweep is enumeration of workload parameters through a two-step simulated history; simulation-specific: envelope via RPC, partition, Byzantine reply"]
     required_fired = ("cover_same", "cover_same-l1", "cover_l1-1", "cover_lower", "noncover", "shape_l2_omitted", "shape_l1_absent", "history_cover",
-                      "history_noncover", "history_protect_from_seed", "history_root_key_loaded_later", "thread_cases", "thread_overlap", "byzantine_reply", "root_key_reloaded_with_other_parameters", "root_key_with_odd_edge_bytes", "clock_histories", "clock_boundary_passed_before_key_id", "index_out_of_range", "lattice_with_assertions_compiled_out")
+                      "history_noncover", "history_protect_from_seed", "history_root_key_loaded_later", "thread_cases", "thread_overlap", "byzantine_reply", "root_key_reloaded_with_other_parameters", "root_key_with_odd_edge_bytes", "clock_histories", "clock_boundary_passed_before_key_id", "index_out_of_range", "lattice_with_assertions_compiled_out", "two_sids_at_once")
 
     def exhaustive(self, tier):
         return tier == "thorough"
@@ -426,6 +473,8 @@ class C02(common.Check):
             out.append(gen_clock_history(rng, i))
         for i in range(400 if tier == "quick" else 16000):
             out.append(gen_thread_reload_history(rng, i))
+        for i in range(400 if tier == "quick" else 16000):
+            out.append(gen_two_sids_history(rng, i))
         from checks import threadpure
 
         for k in range(900 if tier == "quick" else 30000):
@@ -447,6 +496,8 @@ class C02(common.Check):
             return run_lattice(case)
         if case.get("kind") == "clock":
             return run_clock(case)
+        if case.get("kind") == "two-sids":
+            return run_two_sids(case)
         return run_history(case)
 
     def shrink(self, case):
